@@ -7,14 +7,14 @@ from permute.utils import binom_conf_interval
 
 COQ_HEADER = """From PV Require Import Lib.Base Model.ConfInt Corr.C12.
 Open Scope Q_scope."""
-RULE = ("grid n in 1..12 (quick; thorough 1..40) x all x x cl in {1/2, 4/5, 9/10, 19/20, 39/40, 99/100} x alternatives, random "
+RULE = ("grid n in 1..12 (quick; thorough 1..40) x all x x cl in {1/20, 1/5, 3/10, 1/2, 4/5, 9/10, 19/20, 39/40, 99/100} x alternatives, random "
         "n<=40 (thorough 100), starting points p in {None, 0, 1/2, 1, x/n}, documented solver keywords (xtol, rtol, maxiter), a fifth of the grid cases preceded by a call with coarse tolerances (xtol 0.05 / 1e-3 / 0.01) that must not influence the certified plain call; the "
         "returned floats are turned into exact rationals and certified by the Gallina checker cp_check with brackets of width "
         "<= 3e-9 on a 1e-12 grid; non-trivial = 0<x<n so that both limits are solved numerically; distinct by (n,x,cl,alt,p,kwargs)")
 EXHAUSTIVE = {"quick": ["n<=12, all x, 6 levels, 3 alternatives"], "thorough": ["n<=40, all x, 6 levels, 3 alternatives"]}
 ASSUMPTIONS = ["scipy brentq (xtol 2e-12) and binom.cdf are accurate enough that the solved limit is within 1e-9 of the exact one; what is certified is the bracket",
                "confidence levels are passed to the model as the nominal rationals (19/20 for 0.95)"]
-CLS = ["1/2", "4/5", "9/10", "19/20", "39/40", "99/100"]
+CLS = ["1/20", "1/5", "3/10", "1/2", "4/5", "9/10", "19/20", "39/40", "99/100"]   # levels below 1/2: one-sided limits lie beyond x/n
 CALT = {"two-sided": "CITwoSided", "lower": "CILower", "upper": "CIUpper"}
 DELTA = Fraction(1, 10**9)
 GRID = 10**12
@@ -27,6 +27,7 @@ def cases(tier, rng, dist):
             for cl in CLS:
                 for alt in CALT:
                     if tier == "quick" and n > 6 and (n + x + len(cl) + len(alt)) % 3: continue
+                    if tier == "quick" and n > 3 and cl in ("1/20", "1/5", "3/10") and (n + x + len(alt)) % 2: continue
                     c = {"n": n, "x": x, "cl": cl, "alt": alt, "p": None, "kw": None}
                     if (n * 7 + x * 3 + len(cl)) % 5 == 0:
                         # a call with coarse documented solver tolerances FIRST: it must not influence the later plain call
